@@ -145,6 +145,35 @@ Theorem C14_despan_total : forall s d,
 Proof. exact despan_total. Qed.
 Print Assumptions C14_despan_total.
 
+(* ---- 6. tables that have a header of their own have a span, wherever the header stands ------------------------------------ *)
+From TV Require Import Proofs.SpansHeader.
+(* the step: whatever a header opens — a fresh table, or an implicit table that headers of its sub-tables / of arrays of
+   tables below it made earlier (`[a.b]` or `[[a.b]]` ... then `[a]`; ParseState::start_table takes that table out of the
+   tree and re-opens it) — the open table is explicit and its span is the header's span *)
+Theorem C14_header_opens_span : forall arr st path trailing sp st',
+  on_header arr st path trailing sp = COk st' ->
+  t_span (st_current st') = Some sp /\ t_implicit (st_current st') = false /\ t_dotted (st_current st') = false.
+Proof. exact on_header_span. Qed.
+Print Assumptions C14_header_opens_span.
+
+(* the document: in EVERY accepted document, every table anywhere in the tree (`in_tree`: the root, entries of tables,
+   elements of arrays of tables, at any depth) that is not implicit — i.e. has a header of its own, is an element of an
+   array of tables, or is the root — has a span, and the span starts at a `[` of the text (offset 0 for the root).
+   No condition on the order of the headers: a super-table given its header after its sub-tables is covered, and so is
+   one given its header after an array of tables below it.  (Implicit tables: known finding C14-implicit-table-span.) *)
+Theorem C14_explicit_table_span : forall s d u,
+  parse_document s = POk d -> in_tree (doc_root d) u -> t_implicit u = false ->
+  exists a b, t_span u = Some (a, b) /\ (a = 0%N \/ nth_error s (N.to_nat a) = Some x5b).
+Proof. exact explicit_table_span. Qed.
+Print Assumptions C14_explicit_table_span.
+
+(* every element of every array of tables is explicit and has such a span *)
+Theorem C14_aot_element_span : forall s d t k ts sp e,
+  parse_document s = POk d -> in_tree (doc_root d) t -> In (k, IAot ts sp) (t_items t) -> In e ts ->
+  t_implicit e = false /\ exists a b, t_span e = Some (a, b) /\ (a = 0%N \/ nth_error s (N.to_nat a) = Some x5b).
+Proof. exact aot_element_span. Qed.
+Print Assumptions C14_aot_element_span.
+
 (* ---- examples: the hypotheses are satisfiable, the statements say something --------------------------------------- *)
 (* "'é' = 'ü' # ö\n[t]\na.b = { x.y = 1, x.z = [ 2 ] }\n[[t.u]]\nk = 1\n[[t.u]]\n" (multi-byte characters, a dotted key, an
    inline table with a dotted key, an array, an array of tables) *)
@@ -180,3 +209,43 @@ Proof.
   - exfalso. revert E. vm_compute. discriminate.
   - exfalso. revert E. vm_compute. discriminate.
 Qed.
+
+(* re-opened tables: `[a.b]` first makes `a` an implicit table without a span; its own header `[a]` (offset 6) then gives it
+   the span 6..15 (header to the end of its last value), `a.b` keeps 0..5.  The same below an array of tables: in
+   `[[a.b]]\n[a]\nx = 1\n` the element has 0..7 and `a` has 8..17.  Without `[a]` the table stays implicit and span-less. *)
+Definition c14_tbl_at (t : tbl) (k : bytes) : option tbl :=
+  match kv_get (t_items t) k with Some (_, ITable sub) => Some sub | _ => None end.
+Definition c14_span_is (t : tbl) (im : bool) (sp : option (N * N)) : bool :=
+  Bool.eqb (t_implicit t) im
+  && match t_span t, sp with
+     | Some (a, b), Some (a', b') => N.eqb a a' && N.eqb b b'
+     | None, None => true
+     | _, _ => false
+     end.
+Definition c14_reopen_check : bool :=
+  let ka := [x61] in let kb := [x62] in
+  match parse_document [x5b; x61; x2e; x62; x5d; x0a; x5b; x61; x5d; x0a; x78; x20; x3d; x20; x31; x0a] with
+  | POk d => match c14_tbl_at (doc_root d) ka with
+             | Some a => c14_span_is a false (Some (6, 15)%N)
+                         && match c14_tbl_at a kb with Some b => c14_span_is b false (Some (0, 5)%N) | None => false end
+             | None => false
+             end
+  | _ => false
+  end
+  && match parse_document [x5b; x5b; x61; x2e; x62; x5d; x5d; x0a; x5b; x61; x5d; x0a; x78; x20; x3d; x20; x31; x0a] with
+     | POk d => match c14_tbl_at (doc_root d) ka with
+                | Some a => c14_span_is a false (Some (8, 17)%N)
+                            && match kv_get (t_items a) kb with
+                               | Some (_, IAot [e] _) => c14_span_is e false (Some (0, 7)%N)
+                               | _ => false
+                               end
+                | None => false
+                end
+     | _ => false
+     end
+  && match parse_document [x5b; x61; x2e; x62; x5d; x0a] with
+     | POk d => match c14_tbl_at (doc_root d) ka with Some a => c14_span_is a true None | None => false end
+     | _ => false
+     end.
+Example c14_example_reopened : c14_reopen_check = true.
+Proof. vm_compute. reflexivity. Qed.
